@@ -63,6 +63,7 @@ type FuncContract struct {
 	Trusted  bool // contract is assumed (body not verified); listed in evidence
 	Witness  []Clause
 	Lemmas   []Clause
+	Unfolds  []Clause // lemma instances assumed at function entry
 	Loops    map[int]*LoopSpec
 	Calls    []*CallSpec
 	Roles    []string
@@ -131,6 +132,14 @@ type ChanDecl struct {
 	Tags      []string
 }
 
+type GlobalDecl struct {
+	PkgPath string
+	Name    string
+	Expr    ast.Expr
+	Text    string
+	Tags    []string
+}
+
 type GhostDecl struct {
 	Name     string
 	Type     string
@@ -145,13 +154,14 @@ type Contracts struct {
 	Fields []*FieldDecl
 	Chans  []*ChanDecl
 	Ghosts map[string]*GhostDecl
+	Globals map[string]*GlobalDecl // pkgpath.Name
 	Files  []string
 	Sha    map[string]string
 }
 
 func newContracts() *Contracts {
 	return &Contracts{Funcs: map[string]*FuncContract{}, Specs: map[string]*SpecFn{}, Lemmas: map[string]*Lemma{},
-		Ifaces: map[string]*IfaceContract{}, Ghosts: map[string]*GhostDecl{}, Sha: map[string]string{}}
+		Ifaces: map[string]*IfaceContract{}, Ghosts: map[string]*GhostDecl{}, Globals: map[string]*GlobalDecl{}, Sha: map[string]string{}}
 }
 
 type cline struct {
@@ -280,7 +290,7 @@ func matchParen(s string, i int) int {
 }
 
 var topKeywords = map[string]bool{"func": true, "closure": true, "spec": true, "lemma": true, "interface": true,
-	"field": true, "chan": true, "ghost": true, "axiom": true}
+	"field": true, "chan": true, "ghost": true, "axiom": true, "global": true}
 
 var clauseKeywords = map[string]bool{"requires": true, "ensures": true, "modifies": true, "safety": true, "pure": true,
 	"inline": true, "may_panic": true, "witness": true, "lemma": true, "role": true, "holds": true, "acquires": true,
@@ -462,6 +472,12 @@ func (cs *Contracts) parseFuncClauses2(fc *FuncContract, loop *LoopSpec, call *C
 				call.Lemmas = append(call.Lemmas, c)
 			default:
 				fc.Lemmas = append(fc.Lemmas, c)
+			}
+		}
+	case "unfold":
+		for _, part := range splitTop(rest, ';') {
+			if part != "" {
+				fc.Unfolds = append(fc.Unfolds, parseLemmaCall(part, path, l.line))
 			}
 		}
 	case "modifies":
@@ -688,6 +704,12 @@ func (cs *Contracts) parseBlock(b []cline, path, pkgPath string) {
 		}
 		cd.Senders, cd.Receivers, cd.Closers = grab("senders"), grab("receivers"), grab("closers")
 		cs.Chans = append(cs.Chans, cd)
+	case "global":
+		tags, _, body := parseTagged(rest)
+		k := strings.Index(body, "=")
+		name := strings.TrimSpace(body[:k])
+		ex := strings.TrimSpace(body[k+1:])
+		cs.Globals[pkgPath+"."+name] = &GlobalDecl{PkgPath: pkgPath, Name: name, Expr: parseExprAt(ex, path, head.line), Text: ex, Tags: tags}
 	case "ghost":
 		f := strings.Fields(rest)
 		g := &GhostDecl{Name: f[0], Type: f[1]}
